@@ -640,13 +640,14 @@ def backoff_iter(start, stop, count=None, factor=2.0, jitter=False):
     start = float(start)
     stop = float(stop)
     factor = float(factor)
-    if start < 0.0:
+    # written so that not-a-number fails every check
+    if not start >= 0.0:
         raise ValueError('expected start >= 0, not %r' % start)
-    if factor < 1.0:
+    if not factor >= 1.0:
         raise ValueError('expected factor >= 1.0, not %r' % factor)
     if stop == 0.0:
         raise ValueError('expected stop >= 0')
-    if stop < start:
+    if not stop >= start:
         raise ValueError('expected stop >= start, not %r' % stop)
     auto_count = count is None
     if auto_count:
